@@ -54,6 +54,7 @@ pub fn gen_case(seed: u64, index: u64) -> Case {
         let op = match rng.below(55) {
             // reduction of fractions whose parts are far above the pool cap (the gcd takes its long-operand paths);
             // the operation judges its own result and stores nothing
+            54 if index % 6 != 0 => Op::new("r.add").a(a).b(b).dst(d).form(f),
             54 => Op::new("rbig.reduce").a(a).b(b).c(slot(&mut rng)).n(rng.below(8) as i64).m(rng.below(1 << 20) as i64).form(rng.below(3)),
             // RBig values that come out of a decoder (fault-free and semantically corrupted encodings)
             52 => Op::new("med.twin").a(a).b(b).dst(d).c(4).form(rng.below(3)).n(rng.below(9) as i64).m(rng.below(60) as i64),
